@@ -12,6 +12,8 @@ def pairs():
     for arch in traps.ARCHETYPES:
         out.append(("trap:" + arch, "named"))
         out.append(("trap:light:" + arch, "named:light"))
+    for arch in traps.TUPLES:
+        out.append(("trap:" + arch, "named"))
     return out
 
 
@@ -45,7 +47,7 @@ def run(tier):
         "traces_validated_against_impl": t.c["lockstep_pairs"] + t.c["query_vectors_compared"],
         "evaluations": t.c["executions"] + t.c["query_vectors_compared"], "distinct_nontrivial": t.c["nontrivial"],
         "programs": len(allpairs),
-        "rule": "%d adversarial node classes (archetypes %s on NodeMixin and LightNodeMixin; every comparison/hash/bool/container "
+        "rule": "%d adversarial node classes (archetypes %s on NodeMixin and LightNodeMixin, plus namedtuple-derived NodeMixin classes of width 0, 1, 2; every comparison/hash/bool/container "
                 "special method records its invocation and answers adversarially) explored in lock-step with a plain twin: every "
                 "(forest, structural call, fault plan) must give the same outcome, forest and hook log, and the complete query "
                 "vector (navigation, util, iterators, Walker, search, Resolver, RenderTree, Dot/Mermaid/Dict/Json exporters) must be "
